@@ -401,7 +401,9 @@ func (s *SimRepo) Increment(name string) (lamport.Time, error) {
 }
 
 func (s *SimRepo) Witness(name string, time lamport.Time) error {
-	if _, err := s.C.gate("Witness", true, fmt.Sprintf("%s %d", name, time)); err != nil {
+	// git-bug witnesses the clocks of a history in Go map order: the values arrive in a random
+	// order (their effect, a maximum, does not depend on it); the hashed log keeps the name only
+	if _, err := s.C.gate2("Witness", true, name, fmt.Sprintf("%s %d", name, time)); err != nil {
 		return err
 	}
 	return s.Inner.Witness(name, time)
@@ -554,7 +556,7 @@ func (f *simFile) Write(p []byte) (int, error) {
 	// the size of a gob-encoded cache file depends on the order in which the two sub-caches
 	// first used the encoder (type ids are assigned on first use): keep it out of the hashed log
 	logDetail := fmt.Sprintf("%s %d bytes", f.name, len(p))
-	if strings.HasPrefix(f.name, "cache/") {
+	if strings.HasPrefix(f.name, "cache/") || strings.HasPrefix(f.name, "tmp:") {
 		logDetail = f.name
 	}
 	crash, err := f.c.gate2("fs.Write", true, logDetail, fmt.Sprintf("%s %d bytes", f.name, len(p)))
@@ -565,6 +567,10 @@ func (f *simFile) Write(p []byte) (int, error) {
 			switch {
 			case f.c.Torn == "new":
 				n = len(p)
+			case f.c.Torn == "prefix:half":
+				n = len(p) / 2
+			case f.c.Torn == "prefix:allbut1":
+				n = len(p) - 1
 			case strings.HasPrefix(f.c.Torn, "prefix:"):
 				fmt.Sscanf(f.c.Torn, "prefix:%d", &n)
 				if n > len(p) {
